@@ -1591,8 +1591,6 @@ class CParser:
                 return self._parse_jump_statement()
             case "PPPRAGMA" | "_PRAGMA":
                 return self._parse_pppragma_directive()
-            case "_STATIC_ASSERT":
-                return self._parse_static_assert()
             case _:
                 return self._parse_expression_statement()
 
@@ -1608,6 +1606,10 @@ class CParser:
     def _parse_block_item(self) -> c_ast.Node | List[c_ast.Node]:
         if self._starts_declaration():
             return self._parse_declaration()
+        if self._peek_type() == "_STATIC_ASSERT":
+            # A static assertion is a declaration: it can be a block item but
+            # not the body of a label, selection or iteration statement.
+            return self._parse_static_assert()
         return self._parse_statement()
 
     # BNF: block_item_list : block_item+
